@@ -40,6 +40,12 @@ CHECKS = {
    note='Trusted: the ~80-line reference model (layers = merge for multi, concatenation for linked; writes go to the first plain context of the own layer). Two narrow relaxations (partial delete through fan-out contexts; exclusivity after delete_function) adopt observed state for exactly the touched name.',
    technique='deterministic simulation of host operation histories with injected failing operations, step-by-step comparison against an executable flattened-layers reference model, history shrinking + replay',
    quick_timeout=900, thorough_timeout=21600),
+ 'C20': dict(
+   category='exploration', design_ref='DESIGN.md 3.8',
+   text='Narrow claim: the simulated part is the process environment the date/time code could consult. Every clause of the statement (timestamp round trips, utc, (d+t)-t, (d+t)-d, =, !=, <, <=, >, >=, unit properties, timespan(microseconds) round trip, naive host datetimes as UTC) is evaluated as a short history whose steps run under simulated local zones (TZ/tzset: fixed offsets to +-23:59, DST rules with transitions placed on the generated dates), changed between steps, and checked (a) against an integer-microsecond instant model and (b) for identical results under every zone assignment. The suite only runs under UTC, where naive-as-UTC and naive-as-local are indistinguishable. Sampling over years 1..9999, offsets at minute resolution, signed timespans.',
+   note='Trusted: Python integer arithmetic for the instant model, glibc parsing of POSIX TZ strings. now()/localtz() are environment functions by design and are not evaluated. Thread-dependent date/time state is covered by C18, not here.',
+   technique='deterministic simulation of the process time-zone environment (seeded zone changes between history steps) with an instant-arithmetic reference model and a zone-independence metamorphic oracle, shrinking + replay',
+   quick_timeout=900, thorough_timeout=21600),
 }
 
 
